@@ -239,7 +239,7 @@ def _run(prop, tier, seed, n_hist, budget, batch, workers, evidence_path, t0, ev
             "seeds": {"master": seed, "first_run_seeds": sorted({r["run_seed"] for r in runs})[:5], "count": len(runs)},
             "simulated_time": "none: the SUT reads no clock; logical steps = %d" % c.get("steps", 0),
             "hash_seed_pool": hp, "workers": workers, "stopped_early": stopped_early,
-            "real_vs_stub": REAL_VS_STUB, "harness_errors": len(errors),
+            "real_vs_stub": REAL_VS_STUB, "harness_errors": len(errors), "harness_retries": c.get("harness_retries", 0),
         },
         "assumptions": ["CPython fork semantics: a forked child of a zygote that executed no pycaption operation is a pristine interpreter",
                         "sys.settrace line events are a faithful set of crash points for pure-Python code",
